@@ -6,7 +6,8 @@
       randomization, N-th powers, zkfac's relation, zkprm's relation
    D. completeness, range slack, range enforcement per system
    E. injectivity of the Fiat-Shamir transcript as a function of (statement, commitment) *)
-From Coq Require Import ZArith Znumtheory Zpow_facts Lia List Bool NArith.
+From Coq Require Import String.
+From Coq Require Import ZArith Znumtheory Zpow_facts Lia List Bool NArith Setoid Morphisms.
 From MPS Require Import Model.Bytes Model.Framing Model.Paillier Model.ZK.
 From MPS Require Import Proofs.BytesProofs Proofs.FramingProofs Proofs.PaillierProofs.
 From MPS Require Proofs.RefSigProofs.
@@ -204,11 +205,27 @@ Qed.
 (* C. verification shapes                                                                           *)
 (* ================================================================================================ *)
 
-(* strip the inner reductions of a product under [mod n] *)
-Ltac modnorm n H :=
-  repeat first [ rewrite (Z.mul_mod_idemp_l _ _ n) by exact H
-               | rewrite (Z.mul_mod_idemp_r _ _ n) by exact H ].
-Ltac modring n H := modnorm n H; f_equal; ring.
+(* strip the inner reductions of a product under [mod n]: congruence modulo n as a setoid *)
+Definition eqmod (n a b : Z) : Prop := a mod n = b mod n.
+Lemma eqmod_equiv n : Equivalence (eqmod n).
+Proof. split; unfold eqmod; [intro; reflexivity | intros x y; auto | intros x y z; congruence]. Qed.
+#[global] Existing Instance eqmod_equiv.
+#[global] Instance eqmod_mul n : Proper (eqmod n ==> eqmod n ==> eqmod n) Z.mul.
+Proof.
+  intros a a' Ha b b' Hb. unfold eqmod in *. destruct (Z.eq_dec n 0) as [->|Hn].
+  - rewrite !Zmod_0_r in *. subst. reflexivity.
+  - rewrite Z.mul_mod, Ha, Hb, <- Z.mul_mod by assumption. reflexivity.
+Qed.
+Lemma eqmod_mod n a : eqmod n (a mod n) a.
+Proof. unfold eqmod. destruct (Z.eq_dec n 0) as [->|Hn]; [now rewrite !Zmod_0_r|]. apply Z.mod_mod. assumption. Qed.
+Lemma eqmod_of_eq n a b : a = b -> eqmod n a b.
+Proof. intros ->. reflexivity. Qed.
+Lemma eqmod_elim n a b : eqmod n a b -> a mod n = b mod n.
+Proof. exact (fun H => H). Qed.
+Global Opaque eqmod.
+
+Ltac modring n H :=
+  apply (eqmod_elim n); rewrite ?eqmod_mod; apply eqmod_of_eq; ring.
 
 Lemma valid_mod_iff n x : 0 < n -> (valid_mod n x = true <-> 0 <= x < n /\ unit n x).
 Proof.
@@ -376,3 +393,783 @@ Section PaillierShapes.
     iota N ((expI N rho e * alpha) mod N) = (expI (N * N) (iota N rho) e * iota N alpha) mod (N * N).
   Proof. apply iota_resp_nonce. Qed.
 End PaillierShapes.
+
+(* ================================================================================================ *)
+(* D. the proof systems                                                                             *)
+(* ================================================================================================ *)
+
+Lemma enc_Some_inv N m r c : enc N m r = Some c -> c = encval N m r /\ Z.abs m <= N / 2.
+Proof.
+  unfold enc. cbv zeta. destruct (Z.gtb_spec (Z.abs m) (N / 2)) as [Hgt|Hle]; [discriminate|].
+  intro HS. injection HS as <-. split; [reflexivity | lia].
+Qed.
+
+Lemma half_bound k N z : 0 <= k -> 2 ^ (k + 1) <= N -> Z.abs z < 2 ^ k -> Z.abs z <= N / 2.
+Proof.
+  intros Hk HN Hz. rewrite Z.pow_add_r, Z.pow_1_r in HN by lia.
+  assert (2 ^ k <= N / 2) by (apply Z.div_le_lower_bound; lia). lia.
+Qed.
+
+Section Systems.
+  Context {G : Type}.
+  Variables (gadd : G -> G -> G) (gneg : G -> G) (gzero : G) (smul : Z -> G -> G).
+  Variable q : Z.
+  Hypothesis Hq : 1 < q.
+  Hypothesis ML : RefSigProofs.module_laws q gadd gneg gzero smul.
+  Variable geqb : G -> G -> bool.
+  Hypothesis geqb_spec : forall a b, geqb a b = true <-> a = b.
+  Variable gis_id : G -> bool.
+  Variable gbase : G.
+
+  Local Notation act := (ZK.act smul q).
+  Local Notation "a +' b" := (gadd a b) (at level 50, left associativity).
+
+  Let q0 : q <> 0. Proof. lia. Qed.
+
+  Lemma act_smul s P : act s P = smul s P.
+  Proof. unfold ZK.act. apply (RefSigProofs.ml_smul_mod _ _ _ _ _ ML). Qed.
+  Lemma smul_cong a b P : a mod q = b mod q -> smul a P = smul b P.
+  Proof.
+    intro H. rewrite <- (RefSigProofs.ml_smul_mod _ _ _ _ _ ML a), <- (RefSigProofs.ml_smul_mod _ _ _ _ _ ML b), H.
+    reflexivity.
+  Qed.
+  Lemma smul_add a b P : smul (a + b) P = smul a P +' smul b P.
+  Proof. apply (RefSigProofs.ml_smul_add_l _ _ _ _ _ ML). Qed.
+  Lemma smul_smul a b P : smul a (smul b P) = smul (a * b) P.
+  Proof. symmetry. apply (RefSigProofs.ml_smul_mul _ _ _ _ _ ML). Qed.
+  Lemma gadd_comm a b : a +' b = b +' a.
+  Proof. apply (RefSigProofs.ml_add_comm _ _ _ _ _ ML). Qed.
+  Lemma gadd_assoc a b c : a +' (b +' c) = a +' b +' c.
+  Proof. apply (RefSigProofs.ml_add_assoc _ _ _ _ _ ML). Qed.
+  Lemma geqb_refl a : geqb a a = true.
+  Proof. apply geqb_spec. reflexivity. Qed.
+  Lemma gadd_swap4 a b c d : a +' b +' (c +' d) = a +' c +' (b +' d).
+  Proof.
+    rewrite <- !gadd_assoc. f_equal. rewrite !gadd_assoc. f_equal. apply gadd_comm.
+  Qed.
+
+  (* the recurring group equation:  (e x + a).P = e.(x.P) + a.P, with the response reduced modulo q or not *)
+  Lemma resp_eq_mod e x a P : act ((e * x + a) mod q) P = act e (act x P) +' act a P.
+  Proof.
+    rewrite !act_smul. rewrite (RefSigProofs.ml_smul_mod _ _ _ _ _ ML). rewrite smul_add, smul_smul. reflexivity.
+  Qed.
+  Lemma resp_eq e x a P : act (e * x + a) P = act e (act x P) +' act a P.
+  Proof. rewrite !act_smul. rewrite smul_add, smul_smul. reflexivity. Qed.
+
+  (* ---------------------------------------------------------------- sch *)
+  Theorem sch_complete gen x a e :
+    let X := act x gen in
+    let C := sch_commit smul q gen a in
+    let z := sch_respond q x a e in
+    sc_zero q z = false -> gis_id C = false -> gis_id X = false ->
+    sch_verify gadd smul geqb gis_id q gen X C z e = Some true.
+  Proof.
+    intros X C z Hz HC HX. unfold sch_verify. rewrite Hz, HC, HX. cbn [negb guard].
+    unfold z, sch_respond, C, sch_commit, X. rewrite resp_eq_mod, geqb_refl. reflexivity.
+  Qed.
+
+  (* ---------------------------------------------------------------- log *)
+  Theorem log_complete a b alpha beta e :
+    let H := act b gbase in
+    let X := act a gbase in
+    let Y := act a H in
+    let '(A, B, C) := log_commit smul gbase q H alpha beta in
+    let '(z1, z2) := log_respond q a b alpha beta e in
+    gis_id A = false -> gis_id B = false -> gis_id C = false ->
+    sc_zero q z1 = false -> sc_zero q z2 = false ->
+    log_verify gadd smul geqb gis_id gbase q H X Y A B C z1 z2 e = Some true.
+  Proof.
+    cbv zeta. unfold log_commit, log_respond. intros HA HB HC H1 H2.
+    unfold log_verify. rewrite HA, HB, HC, H1, H2. cbn [orb negb guard].
+    rewrite !resp_eq_mod, !geqb_refl. reflexivity.
+  Qed.
+
+  (* ---------------------------------------------------------------- elog *)
+  Theorem elog_complete X H y lambda alpha m e :
+    let L := act lambda gbase in
+    let M := act y gbase +' act lambda X in
+    let Y := act y H in
+    let '(A, Np, B) := elog_commit gadd smul gbase q X H alpha m in
+    let '(z, u) := elog_respond q y lambda alpha m e in
+    gis_id A = false -> gis_id Np = false -> gis_id B = false ->
+    sc_zero q z = false -> sc_zero q u = false ->
+    elog_verify gadd smul geqb gis_id gbase q L M X H Y A Np B z u e = Some true.
+  Proof.
+    cbv zeta. unfold elog_commit, elog_respond. intros HA HN HB H1 H2.
+    unfold elog_verify. rewrite HA, HN, HB, H1, H2. cbn [orb negb guard].
+    rewrite !resp_eq_mod, !geqb_refl. cbn [guard].
+    replace (act e (act y gbase +' act lambda X) +' (act m gbase +' act alpha X))
+      with (act e (act y gbase) +' act m gbase +' (act e (act lambda X) +' act alpha X)).
+    - rewrite geqb_refl. reflexivity.
+    - rewrite (act_smul e (act y gbase +' act lambda X)), (RefSigProofs.ml_smul_add_r _ _ _ _ _ ML), <- !act_smul.
+      apply gadd_swap4.
+  Qed.
+
+  (* ---------------------------------------------------------------- nth *)
+  Lemma valid_iota N r : 1 < N -> unit N r -> valid_mod (N * N) (iota N r) = true.
+  Proof.
+    intros HN Hr. apply valid_mod_iff; [nia|]. split; [apply powmod_range; nia | apply unit_iota; [lia | assumption]].
+  Qed.
+
+  Theorem nth_complete n rho alpha e :
+    1 < n -> unit n rho -> unit n alpha ->
+    nth_verify n (iota n rho) (nth_commit n alpha) (nth_respond n rho alpha e) e = Some true.
+  Proof.
+    intros Hn Hrho Ha. unfold nth_verify, nth_commit, nth_respond.
+    rewrite valid_resp_nonce by assumption. fold (iota n alpha). rewrite valid_iota by assumption. cbn [guard].
+    fold (iota n ((expI n rho e * alpha) mod n)). rewrite nth_linear by assumption.
+    rewrite Z.eqb_refl. reflexivity.
+  Qed.
+
+  (* ---------------------------------------------------------------- enc *)
+  Theorem enc_complete nh s t n0 k rho alpha r mu gamma e K S A C z1 z2 z3 :
+    1 < nh -> unit nh s -> unit nh t -> 1 < n0 -> 2 ^ 769 <= n0 -> unit n0 rho -> unit n0 r ->
+    enc n0 k rho = Some K ->
+    enc_commit nh s t n0 k alpha r mu gamma = Some (S, A, C) ->
+    enc_respond n0 k rho alpha r mu gamma e = (z1, z2, z3) ->
+    in_leps z1 = true ->
+    enc_verify nh s t n0 K S A C z1 z2 z3 e = Some true.
+  Proof.
+    intros Hnh Hs Ht Hn0 Hbig Hrho Hr HK Hcom Hresp Hrange.
+    apply enc_Some_inv in HK as [-> _].
+    unfold enc_commit in Hcom. destruct (enc n0 alpha r) as [A'|] eqn:EA; [|discriminate].
+    apply enc_Some_inv in EA as [-> _]. injection Hcom as <- <- <-.
+    unfold enc_respond in Hresp. injection Hresp as <- <- <-.
+    unfold enc_verify. rewrite validate_encval, valid_resp_nonce, Hrange, ped_complete by assumption. cbn [guard].
+    apply enc_eq_ok.
+    - apply (half_bound 768); [lia | exact Hbig | apply in_leps_iff; exact Hrange].
+    - apply enc_linear; assumption.
+  Qed.
+
+  (* ---------------------------------------------------------------- logstar *)
+  Theorem logstar_complete nh s t n0 Gb x rho alpha r mu gamma e C S A Y D z1 z2 z3 :
+    1 < nh -> unit nh s -> unit nh t -> 1 < n0 -> 2 ^ 769 <= n0 -> unit n0 rho -> unit n0 r ->
+    enc n0 x rho = Some C ->
+    logstar_commit smul q nh s t n0 Gb x alpha r mu gamma = Some (S, A, Y, D) ->
+    enc_respond n0 x rho alpha r mu gamma e = (z1, z2, z3) ->
+    gis_id Y = false ->
+    in_leps z1 = true ->
+    logstar_verify gadd smul geqb gis_id q nh s t n0 C (act x Gb) Gb S A Y D z1 z2 z3 e = Some true.
+  Proof.
+    intros Hnh Hs Ht Hn0 Hbig Hrho Hr HC Hcom Hresp HY Hrange.
+    apply enc_Some_inv in HC as [-> _].
+    unfold logstar_commit in Hcom. destruct (enc n0 alpha r) as [A'|] eqn:EA; [|discriminate].
+    apply enc_Some_inv in EA as [-> _]. injection Hcom as <- <- <- <-.
+    unfold enc_respond in Hresp. injection Hresp as <- <- <-.
+    unfold logstar_verify. rewrite validate_encval, HY, valid_resp_nonce, Hrange, ped_complete by assumption. cbn [negb guard].
+    rewrite enc_eq_ok.
+    - rewrite resp_eq, geqb_refl. reflexivity.
+    - apply (half_bound 768); [lia | exact Hbig | apply in_leps_iff; exact Hrange].
+    - apply enc_linear; assumption.
+  Qed.
+
+  (* ---------------------------------------------------------------- dec *)
+  Lemma dec_scalar_eq e y alpha :
+    (e * y + alpha) mod q = (((e mod q) * ((y mod q) mod q)) mod q + (alpha mod q) mod q) mod q.
+  Proof.
+    rewrite !Z.mod_mod by lia. rewrite <- Z.mul_mod by lia. rewrite <- Z.add_mod by lia. reflexivity.
+  Qed.
+
+  (* no l+eps range check: the only bound is EncWithNonce's |z1| <= N/2 *)
+  Theorem dec_complete nh s t n0 y rho alpha mu nu r e C S T A Gamma z1 z2 w :
+    1 < nh -> unit nh s -> unit nh t -> 1 < n0 -> unit n0 rho -> unit n0 r ->
+    enc n0 y rho = Some C ->
+    dec_commit q nh s t n0 y alpha mu nu r = Some (S, T, A, Gamma) ->
+    dec_respond n0 y rho alpha mu nu r e = (z1, z2, w) ->
+    sc_zero q Gamma = false ->
+    Z.abs z1 <= n0 / 2 ->
+    dec_verify q nh s t n0 C (y mod q) S T A Gamma z1 z2 w e = Some true.
+  Proof.
+    intros Hnh Hs Ht Hn0 Hrho Hr HC Hcom Hresp HG Hz1.
+    apply enc_Some_inv in HC as [-> _].
+    unfold dec_commit in Hcom. destruct (enc n0 alpha r) as [A'|] eqn:EA; [|discriminate].
+    apply enc_Some_inv in EA as [-> _]. injection Hcom as <- <- <- <-.
+    unfold dec_respond in Hresp. injection Hresp as <- <- <-.
+    unfold dec_verify. rewrite HG, validate_encval, valid_resp_nonce, ped_complete by assumption. cbn [negb guard].
+    rewrite enc_eq_ok.
+    - rewrite <- dec_scalar_eq, Z.eqb_refl. reflexivity.
+    - exact Hz1.
+    - apply enc_linear; assumption.
+  Qed.
+
+  (* ---------------------------------------------------------------- mul *)
+  Lemma validate_randomize N c r : 1 < N -> unit (N * N) c -> unit N r -> validate_ct N (randomize N c r) = true.
+  Proof.
+    intros HN Hc Hr. unfold randomize. apply validate_ct_unit_mod; [assumption|].
+    apply unit_mul; [assumption | apply unit_iota; [lia | assumption]].
+  Qed.
+  Lemma validate_add N c1 c2 : 1 < N -> unit (N * N) c1 -> unit (N * N) c2 -> validate_ct N (add N c1 c2) = true.
+  Proof. intros HN H1 H2. unfold add. apply validate_ct_unit_mod; [assumption|]. apply unit_mul; assumption. Qed.
+
+  (* no range check on Z either *)
+  Theorem mul_complete n Y x rho rhox alpha r sn e X C A B z u v :
+    1 < n -> unit (n * n) Y -> unit n rho -> unit n rhox -> unit n r -> unit n sn ->
+    enc n x rhox = Some X ->
+    C = randomize n (mul n x Y) rho ->
+    mul_commit n Y alpha r sn = Some (A, B) ->
+    mul_respond n x rho rhox alpha r sn e = (z, u, v) ->
+    Z.abs z <= n / 2 ->
+    mul_verify n X Y C A B z u v e = Some true.
+  Proof.
+    intros Hn HY Hrho Hrhox Hr Hsn HX -> Hcom Hresp Hz.
+    apply enc_Some_inv in HX as [-> _].
+    unfold mul_commit in Hcom. destruct (enc n alpha sn) as [B'|] eqn:EB; [|discriminate].
+    apply enc_Some_inv in EB as [-> _]. injection Hcom as <- <-.
+    unfold mul_respond in Hresp. injection Hresp as <- <- <-.
+    unfold mul_verify. rewrite !valid_resp_nonce by assumption.
+    rewrite validate_randomize by (try apply unit_mul_ct; assumption).
+    rewrite validate_encval by assumption. cbn [andb guard].
+    rewrite rand_linear by assumption. rewrite Z.eqb_refl. cbn [guard].
+    apply enc_eq_ok; [exact Hz | apply enc_linear; assumption].
+  Qed.
+
+  (* ---------------------------------------------------------------- affg *)
+  Theorem affg_complete nh s t n1 n0 Kv x y sn r alpha beta rho rhoy gamma m delta mu e
+          Dv Fp A Bx By E S F T z1 z2 z3 z4 w wy :
+    1 < nh -> unit nh s -> unit nh t ->
+    1 < n0 -> 2 ^ 1793 <= n0 -> 1 < n1 -> 2 ^ 1793 <= n1 ->
+    unit (n0 * n0) Kv -> unit n0 sn -> unit n0 rho -> unit n1 r -> unit n1 rhoy ->
+    enc n0 y sn = Some Dv -> enc n1 y r = Some Fp ->
+    affg_commit smul gbase q nh s t n1 n0 Kv x y alpha beta rho rhoy gamma m delta mu = Some (A, Bx, By, E, S, F, T) ->
+    affg_respond n1 n0 x y sn r alpha beta rho rhoy gamma m delta mu e = (z1, z2, z3, z4, w, wy) ->
+    gis_id Bx = false -> in_leps z1 = true -> in_lprimeeps z2 = true ->
+    affg_verify gadd smul geqb gis_id gbase q nh s t n1 n0 Kv (add n0 (mul n0 x Kv) Dv) Fp (act x gbase)
+                A Bx By E S F T z1 z2 z3 z4 w wy e = Some true.
+  Proof.
+    intros Hnh Hs Ht Hn0 Hb0 Hn1 Hb1 HK Hsn Hrho Hr Hrhoy HD HF Hcom Hresp HBx Hr1 Hr2.
+    apply enc_Some_inv in HD as [-> _]. apply enc_Some_inv in HF as [-> _].
+    unfold affg_commit in Hcom.
+    destruct (enc n0 beta rho) as [c|] eqn:E0; [|discriminate].
+    destruct (enc n1 beta rhoy) as [By'|] eqn:E1; [|discriminate].
+    apply enc_Some_inv in E0 as [-> _]. apply enc_Some_inv in E1 as [-> _].
+    injection Hcom as <- <- <- <- <- <- <-.
+    unfold affg_respond in Hresp. injection Hresp as <- <- <- <- <- <-.
+    assert (Hz2 : Z.abs (e * y + beta) <= n0 / 2)
+      by (apply (half_bound 1792); [lia | exact Hb0 | apply in_lprimeeps_iff; exact Hr2]).
+    assert (Hz2' : Z.abs (e * y + beta) <= n1 / 2)
+      by (apply (half_bound 1792); [lia | exact Hb1 | apply in_lprimeeps_iff; exact Hr2]).
+    unfold affg_verify.
+    rewrite validate_add by (try apply unit_encval; try apply unit_mul_ct; assumption).
+    rewrite validate_encval by assumption.
+    rewrite !valid_resp_nonce by assumption. rewrite HBx, Hr1, Hr2. rewrite !ped_complete by assumption.
+    cbn [negb guard]. rewrite enc_encval by exact Hz2.
+    rewrite aff_linear by assumption. rewrite Z.eqb_refl. cbn [guard].
+    rewrite resp_eq, geqb_refl. cbn [guard].
+    apply enc_eq_ok; [exact Hz2' | apply enc_linear; assumption].
+  Qed.
+
+  (* ---------------------------------------------------------------- affp *)
+  Theorem affp_complete nh s t n1 n0 Kv x y sn rx r alpha beta rho rhox rhoy gamma m delta mu e
+          Dv Fp Xp A Bx By E S F T z1 z2 z3 z4 w wx wy :
+    1 < nh -> unit nh s -> unit nh t ->
+    1 < n0 -> 2 ^ 1793 <= n0 -> 1 < n1 -> 2 ^ 1793 <= n1 ->
+    unit (n0 * n0) Kv -> unit n0 sn -> unit n0 rho -> unit n1 rx -> unit n1 r -> unit n1 rhox -> unit n1 rhoy ->
+    enc n0 y sn = Some Dv -> enc n1 y r = Some Fp -> enc n1 x rx = Some Xp ->
+    affp_commit nh s t n1 n0 Kv x y alpha beta rho rhox rhoy gamma m delta mu = Some (A, Bx, By, E, S, F, T) ->
+    affp_respond n1 n0 x y sn rx r alpha beta rho rhox rhoy gamma m delta mu e = (z1, z2, z3, z4, w, wx, wy) ->
+    in_leps z1 = true -> in_lprimeeps z2 = true ->
+    affp_verify nh s t n1 n0 Kv (add n0 (mul n0 x Kv) Dv) Fp Xp A Bx By E S F T z1 z2 z3 z4 w wx wy e = Some true.
+  Proof.
+    intros Hnh Hs Ht Hn0 Hb0 Hn1 Hb1 HK Hsn Hrho Hrx Hr Hrhox Hrhoy HD HF HX Hcom Hresp Hr1 Hr2.
+    apply enc_Some_inv in HD as [-> _]. apply enc_Some_inv in HF as [-> _]. apply enc_Some_inv in HX as [-> _].
+    unfold affp_commit in Hcom.
+    destruct (enc n0 beta rho) as [c|] eqn:E0; [|discriminate].
+    destruct (enc n1 alpha rhox) as [Bx'|] eqn:E1; [|discriminate].
+    destruct (enc n1 beta rhoy) as [By'|] eqn:E2; [|discriminate].
+    apply enc_Some_inv in E0 as [-> _]. apply enc_Some_inv in E1 as [-> _]. apply enc_Some_inv in E2 as [-> _].
+    injection Hcom as <- <- <- <- <- <- <-.
+    unfold affp_respond in Hresp. injection Hresp as <- <- <- <- <- <- <-.
+    assert (Hz2 : Z.abs (e * y + beta) <= n0 / 2)
+      by (apply (half_bound 1792); [lia | exact Hb0 | apply in_lprimeeps_iff; exact Hr2]).
+    assert (Hz2' : Z.abs (e * y + beta) <= n1 / 2)
+      by (apply (half_bound 1792); [lia | exact Hb1 | apply in_lprimeeps_iff; exact Hr2]).
+    assert (Hz1 : Z.abs (e * x + alpha) <= n1 / 2).
+    { apply (half_bound 1792); [lia | exact Hb1 |]. apply in_leps_iff in Hr1.
+      assert (2 ^ 768 < 2 ^ 1792) by (apply Z.pow_lt_mono_r; lia). lia. }
+    unfold affp_verify.
+    rewrite validate_add by (try apply unit_encval; try apply unit_mul_ct; assumption).
+    rewrite !validate_encval by assumption.
+    rewrite !valid_resp_nonce by assumption. rewrite Hr1, Hr2.
+    cbn [andb guard]. rewrite enc_encval by exact Hz2.
+    rewrite aff_linear by assumption. rewrite Z.eqb_refl. cbn [guard].
+    rewrite enc_eq_ok; [| exact Hz1 | apply enc_linear; assumption].
+    rewrite enc_eq_ok; [| exact Hz2' | apply enc_linear; assumption].
+    rewrite !ped_complete by assumption. reflexivity.
+  Qed.
+
+  (* ---------------------------------------------------------------- mulstar *)
+  Theorem mulstar_complete nh s t n0 C x rho alpha r gamma m e D A Bx E S z1 z2 w :
+    1 < nh -> unit nh s -> unit nh t -> 1 < n0 ->
+    unit (n0 * n0) C -> unit n0 rho -> unit n0 r ->
+    D = randomize n0 (mul n0 x C) rho ->
+    mulstar_commit smul gbase q nh s t n0 C x alpha r gamma m = (A, Bx, E, S) ->
+    mulstar_respond n0 x rho alpha r gamma m e = (z1, z2, w) ->
+    gis_id Bx = false -> in_leps z1 = true ->
+    mulstar_verify gadd smul geqb gis_id gbase q nh s t n0 C D (act x gbase) A Bx E S z1 z2 w e = Some true.
+  Proof.
+    intros Hnh Hs Ht Hn0 HC Hrho Hr -> Hcom Hresp HBx Hr1.
+    unfold mulstar_commit in Hcom. injection Hcom as <- <- <- <-.
+    unfold mulstar_respond in Hresp. injection Hresp as <- <- <-.
+    unfold mulstar_verify. rewrite valid_resp_nonce by assumption.
+    rewrite validate_randomize by (try apply unit_mul_ct; assumption).
+    rewrite HBx, Hr1, ped_complete by assumption. cbn [negb guard].
+    rewrite rand_linear by assumption. rewrite Z.eqb_refl. cbn [guard].
+    rewrite resp_eq, geqb_refl. reflexivity.
+  Qed.
+
+  (* ---------------------------------------------------------------- encelg *)
+  Theorem encelg_complete nh s t n0 a b x rho alpha mu r beta gamma e C S D Y Zp T z1 w z2 z3 :
+    1 < nh -> unit nh s -> unit nh t -> 1 < n0 -> 2 ^ 769 <= n0 -> unit n0 rho -> unit n0 r ->
+    enc n0 x rho = Some C ->
+    let A := act a gbase in
+    encelg_commit gadd smul gbase q nh s t n0 A x alpha mu r beta gamma = Some (S, D, Y, Zp, T) ->
+    encelg_respond q n0 x rho b alpha mu r beta gamma e = (z1, w, z2, z3) ->
+    sc_zero q w = false -> gis_id Y = false -> gis_id Zp = false -> in_leps z1 = true ->
+    encelg_verify gadd smul geqb gis_id gbase q nh s t n0 C A (act b gbase) (act (a * b + x) gbase)
+                  S D Y Zp T z1 w z2 z3 e = Some true.
+  Proof.
+    intros Hnh Hs Ht Hn0 Hbig Hrho Hr HC A Hcom Hresp Hw HY HZ Hr1.
+    apply enc_Some_inv in HC as [-> _].
+    unfold encelg_commit in Hcom. destruct (enc n0 alpha r) as [D'|] eqn:ED; [|discriminate].
+    apply enc_Some_inv in ED as [-> _]. injection Hcom as <- <- <- <- <-.
+    unfold encelg_respond in Hresp. injection Hresp as <- <- <- <-.
+    unfold encelg_verify. rewrite validate_encval, Hw, HY, HZ, valid_resp_nonce, Hr1 by assumption. cbn [orb negb guard].
+    rewrite enc_eq_ok;
+      [| apply (half_bound 768); [lia | exact Hbig | apply in_leps_iff; exact Hr1] | apply enc_linear; assumption].
+    assert (Ew : forall P, act (((e mod q) * (b mod q)) mod q + beta mod q) P = smul (e * b + beta) P).
+    { intro P. rewrite act_smul. apply smul_cong.
+      rewrite <- Z.mul_mod by lia. rewrite <- Z.add_mod by lia. reflexivity. }
+    assert (Ew' : forall P, act ((((e mod q) * (b mod q)) mod q + beta mod q) mod q) P = smul (e * b + beta) P).
+    { intro P. rewrite <- Ew. rewrite !act_smul. apply (RefSigProofs.ml_smul_mod _ _ _ _ _ ML). }
+    rewrite !Ew'.
+    replace (act (e * x + alpha) gbase +' smul (e * b + beta) A)
+      with (act e (act (a * b + x) gbase) +' (act beta A +' act alpha gbase)).
+    - rewrite geqb_refl. cbn [guard].
+      replace (smul (e * b + beta) gbase) with (act e (act b gbase) +' act beta gbase)
+        by (rewrite !act_smul, smul_add, smul_smul; reflexivity).
+      rewrite geqb_refl. cbn [guard]. rewrite ped_complete by assumption. reflexivity.
+    - unfold A. rewrite !act_smul. rewrite !smul_smul, <- !smul_add. apply smul_cong. f_equal. ring.
+  Qed.
+
+  (* ---------------------------------------------------------------- fac *)
+  Lemma powmod_expI n x k : 0 < n -> 0 <= k -> powmod n x k = expI n x k.
+  Proof. intros Hn Hk. rewrite powmod_spec, expI_nonneg by assumption. reflexivity. Qed.
+
+  Lemma fac_relation nh s t pp qq alpha nu sigma r e :
+    1 < nh -> unit nh s -> unit nh t -> 0 <= pp * qq ->
+    let Q := ped_commit nh s t qq nu in
+    (expI nh Q (e * pp + alpha) * expI nh t (e * (sigma - nu * pp) + r)) mod nh
+    = (expI nh ((powmod nh s (pp * qq) * expI nh t sigma) mod nh) e * ((expI nh Q alpha * expI nh t r) mod nh)) mod nh.
+  Proof.
+    intros Hnh Hs Ht Hpq Q. assert (n0 : nh <> 0) by lia.
+    assert (HQ : unit nh Q) by (apply unit_ped_commit; assumption).
+    transitivity ((expI nh s (pp * qq * e) * expI nh t (sigma * e + r) * expI nh Q alpha) mod nh).
+    - rewrite (expI_add nh Q (e * pp) alpha) by assumption.
+      unfold Q at 1, ped_commit.
+      rewrite expI_mulmod_base by (try apply unit_expI; assumption).
+      rewrite !expI_expI by assumption.
+      replace (sigma * e + r) with (nu * (e * pp) + (e * (sigma - nu * pp) + r)) by ring.
+      rewrite (expI_add nh t (nu * (e * pp))) by assumption.
+      replace (qq * (e * pp)) with (pp * qq * e) by ring.
+      modring nh n0.
+    - rewrite powmod_expI by lia.
+      rewrite expI_mulmod_base by (try apply unit_expI; assumption).
+      rewrite !expI_expI by assumption.
+      rewrite (expI_add nh t (sigma * e) r) by assumption.
+      modring nh n0.
+  Qed.
+
+  Theorem fac_complete nh s t pp qq alpha beta mu nu sigma r x y e P Q A B T z1 z2 w1 w2 v :
+    1 < nh -> unit nh s -> unit nh t -> 0 <= pp * qq ->
+    fac_commit nh s t pp qq alpha beta mu nu r x y = (P, Q, A, B, T) ->
+    fac_respond pp qq alpha beta mu nu sigma r x y e = (z1, z2, w1, w2, v) ->
+    in_leps1rootn z1 = true -> in_leps1rootn z2 = true ->
+    fac_verify (pp * qq) nh s t P Q A B T sigma z1 z2 w1 w2 v e = Some true.
+  Proof.
+    intros Hnh Hs Ht Hpq Hcom Hresp H1 H2.
+    unfold fac_commit in Hcom. cbv zeta in Hcom. injection Hcom as <- <- <- <- <-.
+    unfold fac_respond in Hresp. injection Hresp as <- <- <- <- <-.
+    unfold fac_verify. rewrite !ped_complete by assumption. cbn [guard]. cbv zeta.
+    rewrite fac_relation by assumption. rewrite Z.eqb_refl, H1, H2. reflexivity.
+  Qed.
+
+  (* ---------------------------------------------------------------- prm *)
+  Lemma pow_mod_order n t phi k : 0 < n -> 0 < phi -> 0 <= k -> t ^ phi mod n = 1 mod n ->
+    t ^ (k mod phi) mod n = t ^ k mod n.
+  Proof.
+    intros Hn Hphi Hk Hord.
+    rewrite (Z.div_mod k phi) at 2 by lia.
+    pose proof (Z.mod_pos_bound k phi Hphi). pose proof (Z.div_pos k phi Hk Hphi).
+    rewrite Z.pow_add_r, Z.pow_mul_r by lia.
+    rewrite Z.mul_mod by lia.
+    rewrite (Zpower_mod (t ^ phi)) by lia. rewrite Hord. rewrite <- Zpower_mod by lia. rewrite Z.pow_1_l by lia.
+    rewrite <- Z.mul_mod by lia. rewrite Z.mul_1_l. reflexivity.
+  Qed.
+
+  Lemma valid_big_unit_mod n x : 1 < n -> unit n x -> valid_big n (x mod n) = true.
+  Proof.
+    intros Hn Hx. unfold valid_big. rewrite gcd_mod_spec by lia. rewrite gcd_mod_l by lia.
+    unfold unit in Hx. rewrite Hx. pose proof (Z.mod_pos_bound x n ltac:(lia)).
+    destruct (Z.eq_dec (x mod n) 0) as [E|E].
+    - exfalso. rewrite <- (gcd_mod_l x n) in Hx by lia. rewrite E, Z.gcd_0_l in Hx. lia.
+    - destruct (Z.ltb_spec 0 (x mod n)); [|lia]. destruct (Z.ltb_spec (x mod n) n); [|lia]. reflexivity.
+  Qed.
+
+  Theorem prm_complete n t phi lambda :
+    1 < n -> 0 < phi -> 0 <= lambda -> unit n t -> powmod n t phi = 1 ->
+    let s := powmod n t lambda in
+    ped_validate n s t = true ->
+    forall al es, length al = length es -> Forall (fun a => 0 <= a) al ->
+    Forall (fun a => a <> 1) (prm_commit n t al) ->
+    Forall (fun z => valid_big n z = true) (prm_respond phi lambda al es) ->
+    prm_verify n s t (prm_commit n t al) (prm_respond phi lambda al es) es = Some true.
+  Proof.
+    intros Hn Hphi Hl Ht Hord s Hval al es Hlen Hpos Hne Hzs.
+    unfold prm_verify. rewrite Hval. cbn [guard].
+    assert (Hr : prm_rounds n s t (prm_commit n t al) (prm_respond phi lambda al es) es = true).
+    { clear Hval. unfold prm_commit, prm_respond in *.
+      revert es Hlen Hzs. induction al as [|a al IH]; intros [|e es] Hlen Hzs; try discriminate; [reflexivity|].
+      cbn [map combine prm_rounds] in *.
+      inversion Hpos as [|? ? Ha Hpos']; subst. inversion Hne as [|? ? Hne1 Hne']; subst.
+      inversion Hzs as [|? ? Hz Hzs']; subst.
+      rewrite IH by (try assumption; cbn in Hlen; lia).
+      rewrite Hz. rewrite andb_true_r.
+      assert (Hva : valid_big n (powmod n t a) = true)
+        by (rewrite powmod_spec by lia; apply valid_big_unit_mod; [lia | apply unit_pow; assumption]).
+      rewrite Hva. cbn [andb].
+      destruct (Z.eqb_spec (powmod n t a) 1) as [E1|_]; [contradiction|]. cbn [negb andb].
+      apply Z.eqb_eq. destruct e.
+      - assert (Hord' : t ^ phi mod n = 1 mod n).
+        { rewrite powmod_spec in Hord by lia. rewrite Hord. symmetry. apply Z.mod_small. lia. }
+        pose proof (Z.mod_pos_bound (a + lambda) phi Hphi).
+        rewrite powmod_spec by lia. rewrite pow_mod_order by (try assumption; lia).
+        unfold s. rewrite !powmod_spec by lia. rewrite Z.pow_add_r by lia.
+        rewrite <- Z.mul_mod by lia. reflexivity.
+      - reflexivity. }
+    rewrite Hr. reflexivity.
+  Qed.
+End Systems.
+
+(* ---------------------------------------------------------------- range slack *)
+(* |e| < 2^256 (IntervalScalar / IntervalL), witness in +-2^l: the response stays below 2^(l+eps) whenever the mask
+   is at most 2^(l+eps) - 2^(l+256) in absolute value (all but a 2^-255 fraction of the sampler's range) *)
+Lemma leps_slack e x alpha :
+  Z.abs e < 2 ^ 256 -> Z.abs x <= 2 ^ 256 -> Z.abs alpha <= 2 ^ 768 - 2 ^ 512 -> in_leps (e * x + alpha) = true.
+Proof.
+  intros He Hx Ha. apply in_leps_iff.
+  assert (Z.abs (e * x) < 2 ^ 512).
+  { rewrite Z.abs_mul. change (2 ^ 512) with (2 ^ 256 * 2 ^ 256).
+    pose proof (Z.abs_nonneg e). pose proof (Z.abs_nonneg x). nia. }
+  pose proof (Z.abs_triangle (e * x) alpha). lia.
+Qed.
+Lemma lprimeeps_slack e y beta :
+  Z.abs e < 2 ^ 256 -> Z.abs y <= 2 ^ 1280 -> Z.abs beta <= 2 ^ 1792 - 2 ^ 1536 -> in_lprimeeps (e * y + beta) = true.
+Proof.
+  intros He Hy Hb. apply in_lprimeeps_iff.
+  assert (Z.abs (e * y) < 2 ^ 1536).
+  { rewrite Z.abs_mul. change (2 ^ 1536) with (2 ^ 256 * 2 ^ 1280).
+    pose proof (Z.abs_nonneg e). pose proof (Z.abs_nonneg y). nia. }
+  pose proof (Z.abs_triangle (e * y) beta). lia.
+Qed.
+(* zkfac: the factors are below 2^1024, the masks are drawn below 2^(l+eps) sqrt(N) = 2^1792, the bound is 2^1793 *)
+Lemma fac_slack e p alpha :
+  Z.abs e < 2 ^ 256 -> Z.abs p <= 2 ^ 1024 -> Z.abs alpha <= 2 ^ 1792 -> in_leps1rootn (e * p + alpha) = true.
+Proof.
+  intros He Hp Ha. apply in_leps1rootn_iff.
+  assert (Z.abs (e * p) < 2 ^ 1280).
+  { rewrite Z.abs_mul. change (2 ^ 1280) with (2 ^ 256 * 2 ^ 1024).
+    pose proof (Z.abs_nonneg e). pose proof (Z.abs_nonneg p). nia. }
+  pose proof (Z.abs_triangle (e * p) alpha).
+  assert (2 ^ 1280 + 2 ^ 1792 < 2 ^ 1793) by (change (2 ^ 1793) with (2 * 2 ^ 1792); assert (2 ^ 1280 < 2 ^ 1792) by (apply Z.pow_lt_mono_r; lia); lia).
+  lia.
+Qed.
+
+Lemma in_firstn {A} n (l : list A) x : In x (firstn n l) -> In x l.
+Proof. intro H. rewrite <- (firstn_skipn n l). apply in_or_app. left. exact H. Qed.
+
+Lemma le_val_bound l : wf_bytes l = true -> (le_val l < 256 ^ N.of_nat (length l))%N.
+Proof.
+  induction l as [|b l IH]; intro Hwf.
+  - cbn. lia.
+  - cbn [wf_bytes forallb] in Hwf. apply andb_true_iff in Hwf as [Hb Hl]. specialize (IH Hl).
+    unfold wf_byte in Hb. apply N.ltb_lt in Hb.
+    cbn [le_val length]. rewrite Nat2N.inj_succ, N.pow_succ_r'. lia.
+Qed.
+
+Lemma be_val_bound l : wf_bytes l = true -> (be_val l < 256 ^ N.of_nat (length l))%N.
+Proof.
+  intro Hwf. unfold be_val. rewrite <- (rev_length l). apply le_val_bound.
+  unfold wf_bytes in *. rewrite forallb_forall in *. intros x Hx. apply Hwf. apply in_rev. exact Hx.
+Qed.
+
+(* the challenge derived by IntervalScalar / IntervalL is below 2^256 in absolute value *)
+Lemma e_interval_range d : wf_bytes d = true -> Z.abs (e_interval d) < 2 ^ 256.
+Proof.
+  intro Hwf. unfold e_interval. destruct d as [|b0 r]; [cbn; lia|].
+  assert (Hb : 0 <= Z.of_N (be_val (firstn 32 r)) < 2 ^ 256).
+  { split; [lia|].
+    assert (Hw : wf_bytes (firstn 32 r) = true).
+    { cbn [wf_bytes forallb] in Hwf. apply andb_true_iff in Hwf as [_ Hr].
+      unfold wf_bytes in *. rewrite forallb_forall in *. intros x Hx. apply Hr. eapply in_firstn; eassumption. }
+    pose proof (firstn_le_length 32 r) as Hlen.
+    pose proof (be_val_bound (firstn 32 r) Hw) as Hbv.
+    assert (256 ^ N.of_nat (length (firstn 32 r)) <= 256 ^ 32)%N by (apply N.pow_le_mono_r; lia).
+    change (2 ^ 256) with (Z.of_N (256 ^ 32)). lia. }
+  destruct (N.testbit b0 0); lia.
+Qed.
+
+(* ---------------------------------------------------------------- the range checks are enforced *)
+Lemma in_leps_false z : 2 ^ 768 <= Z.abs z -> in_leps z = false.
+Proof. intro H. destruct (in_leps z) eqn:E; [apply in_leps_iff in E; lia | reflexivity]. Qed.
+Lemma in_lprimeeps_false z : 2 ^ 1792 <= Z.abs z -> in_lprimeeps z = false.
+Proof. intro H. destruct (in_lprimeeps z) eqn:E; [apply in_lprimeeps_iff in E; lia | reflexivity]. Qed.
+Lemma in_leps1rootn_false z : 2 ^ 1793 <= Z.abs z -> in_leps1rootn z = false.
+Proof. intro H. destruct (in_leps1rootn z) eqn:E; [apply in_leps1rootn_iff in E; lia | reflexivity]. Qed.
+
+(* every check before the range check returns false, none can panic *)
+Ltac guards :=
+  unfold guard;
+  repeat match goal with
+         | |- (if ?b then _ else _) = _ => destruct b
+         end; try reflexivity.
+
+Section RangeEnforced.
+  Context {G : Type}.
+  Variables (gadd : G -> G -> G) (smul : Z -> G -> G) (geqb : G -> G -> bool) (gis_id : G -> bool) (gbase : G) (q : Z).
+
+  Theorem enc_range_enforced nh s t n0 K S A C z1 z2 z3 e :
+    2 ^ 768 <= Z.abs z1 -> enc_verify nh s t n0 K S A C z1 z2 z3 e = Some false.
+  Proof. intro H. unfold enc_verify. rewrite (in_leps_false z1 H). guards. Qed.
+
+  Theorem logstar_range_enforced nh s t n0 C X Gb S A Y D z1 z2 z3 e :
+    2 ^ 768 <= Z.abs z1 -> logstar_verify gadd smul geqb gis_id q nh s t n0 C X Gb S A Y D z1 z2 z3 e = Some false.
+  Proof. intro H. unfold logstar_verify. rewrite (in_leps_false z1 H). guards. Qed.
+
+  Theorem affg_range_enforced nh s t n1 n0 Kv Dv Fp Xp A Bx By E S F T z1 z2 z3 z4 w wy e :
+    2 ^ 768 <= Z.abs z1 \/ 2 ^ 1792 <= Z.abs z2 ->
+    affg_verify gadd smul geqb gis_id gbase q nh s t n1 n0 Kv Dv Fp Xp A Bx By E S F T z1 z2 z3 z4 w wy e = Some false.
+  Proof.
+    intros [H|H]; unfold affg_verify.
+    - rewrite (in_leps_false z1 H). guards.
+    - rewrite (in_lprimeeps_false z2 H). guards.
+  Qed.
+
+  Theorem affp_range_enforced nh s t n1 n0 Kv Dv Fp Xp A Bx By E S F T z1 z2 z3 z4 w wx wy e :
+    2 ^ 768 <= Z.abs z1 \/ 2 ^ 1792 <= Z.abs z2 ->
+    affp_verify nh s t n1 n0 Kv Dv Fp Xp A Bx By E S F T z1 z2 z3 z4 w wx wy e = Some false.
+  Proof.
+    intros [H|H]; unfold affp_verify.
+    - rewrite (in_leps_false z1 H). guards.
+    - rewrite (in_lprimeeps_false z2 H). guards.
+  Qed.
+
+  Theorem mulstar_range_enforced nh s t n0 C D X A Bx E S z1 z2 w e :
+    2 ^ 768 <= Z.abs z1 -> mulstar_verify gadd smul geqb gis_id gbase q nh s t n0 C D X A Bx E S z1 z2 w e = Some false.
+  Proof. intro H. unfold mulstar_verify. rewrite (in_leps_false z1 H). guards. Qed.
+
+  Theorem encelg_range_enforced nh s t n0 C A B X S D Y Zp T z1 w z2 z3 e :
+    2 ^ 768 <= Z.abs z1 -> encelg_verify gadd smul geqb gis_id gbase q nh s t n0 C A B X S D Y Zp T z1 w z2 z3 e = Some false.
+  Proof. intro H. unfold encelg_verify. rewrite (in_leps_false z1 H). guards. Qed.
+
+  Theorem fac_range_enforced n0 nh s t P Q A B T sigma z1 z2 w1 w2 v e :
+    2 ^ 1793 <= Z.abs z1 \/ 2 ^ 1793 <= Z.abs z2 ->
+    fac_verify n0 nh s t P Q A B T sigma z1 z2 w1 w2 v e = Some false.
+  Proof.
+    intros [H|H]; unfold fac_verify; cbv zeta.
+    - rewrite (in_leps1rootn_false z1 H). cbn [andb]. guards.
+    - rewrite (in_leps1rootn_false z2 H). rewrite andb_false_r. guards.
+  Qed.
+
+  (* zkdec, zkmul: the only bound on the response is the guard of EncWithNonce; beyond it the verifier does not
+     accept (it rejects at an earlier check or PANICS); up to N/2 there is no check at all (see dec_complete) *)
+  Theorem dec_range_partial nh s t n0 C X S T A Gamma z1 z2 w e :
+    n0 / 2 < Z.abs z1 -> dec_verify q nh s t n0 C X S T A Gamma z1 z2 w e <> Some true.
+  Proof.
+    intro H. unfold dec_verify. rewrite (enc_eq_refuses n0 z1 w _ _ H). unfold guard.
+    repeat match goal with |- (if ?b then _ else _) <> _ => destruct b end; discriminate.
+  Qed.
+  Theorem dec_oversized_panics nh s t n0 C X S T A Gamma z1 z2 w e :
+    n0 / 2 < Z.abs z1 ->
+    sc_zero q Gamma = false -> validate_ct n0 A = true -> valid_mod n0 w = true -> ped_verify nh s t z1 z2 e T S = true ->
+    dec_verify q nh s t n0 C X S T A Gamma z1 z2 w e = None.
+  Proof.
+    intros H H1 H2 H3 H4. unfold dec_verify. rewrite H1, H2, H3, H4. cbn [negb guard]. apply enc_eq_refuses. exact H.
+  Qed.
+
+  Theorem mul_range_partial n X Y C A B z u v e :
+    n / 2 < Z.abs z -> mul_verify n X Y C A B z u v e <> Some true.
+  Proof.
+    intro H. unfold mul_verify. rewrite (enc_eq_refuses n z v _ _ H). unfold guard.
+    repeat match goal with |- (if ?b then _ else _) <> _ => destruct b end; discriminate.
+  Qed.
+
+  (* zknth, zkprm: the responses are residues; anything outside [1, N) is refused *)
+  Theorem nth_range_enforced n R A z e : ~ (0 <= z < n) -> nth_verify n R A z e = Some false.
+  Proof.
+    intro H. unfold nth_verify.
+    assert (E : valid_mod n z = false).
+    { unfold valid_mod. destruct (Z.leb_spec 0 z); [|reflexivity]. destruct (Z.ltb_spec z n); [lia | reflexivity]. }
+    rewrite E. reflexivity.
+  Qed.
+End RangeEnforced.
+
+Lemma prm_rounds_range n s t : forall As Zs es, Exists (fun z => ~ (0 < z < n)) Zs -> prm_rounds n s t As Zs es = false.
+Proof.
+  induction As as [|a As IH]; intros Zs es HE.
+  - destruct Zs, es; try reflexivity. inversion HE.
+  - destruct Zs as [|z Zs], es as [|e es]; try reflexivity. cbn [prm_rounds].
+    inversion HE as [? ? Hz|? ? Hz]; subst.
+    + assert (E : valid_big n z = false).
+      { unfold valid_big. destruct (Z.ltb_spec 0 z); [|reflexivity]. destruct (Z.ltb_spec z n); [lia | reflexivity]. }
+      rewrite E. rewrite andb_false_r. reflexivity.
+    + rewrite (IH Zs es Hz). apply andb_false_r.
+Qed.
+Theorem prm_range_enforced n s t As Zs es : Exists (fun z => ~ (0 < z < n)) Zs -> prm_verify n s t As Zs es = Some false.
+Proof. intro H. unfold prm_verify. rewrite (prm_rounds_range n s t As Zs es H). guards. Qed.
+
+(* ================================================================================================ *)
+(* E. the Fiat-Shamir transcript determines every typed field                                       *)
+(* ================================================================================================ *)
+
+Definition fld_item (f : fld) : item :=
+  match f with
+  | FPed n s t => mkItem (str "Pedersen Parameters"%string)
+                    (be_bytes 256 (Z.to_N n) ++ be_bytes 256 (Z.to_N s) ++ be_bytes 256 (Z.to_N t))
+  | FPk n => mkItem (str "Paillier PublicKey"%string) (be_min (Z.to_N n))
+  | FCt c => mkItem (str "Paillier Ciphertext"%string) (be_bytes 512 (Z.to_N c))
+  | FNat k v => mkItem (str "*saferith.Nat"%string) (be_bytes k (Z.to_N v))
+  | FMod n => mkItem (str "*saferith.Modulus"%string) (be_min (Z.to_N n))
+  | FBig z => mkItem (str "big.Int"%string) (gob_bigint z)
+  | FSc s => mkItem (str "*curve.Secp256k1Scalar"%string) (be_bytes 32 (Z.to_N s))
+  | FPt x o => mkItem (str "*curve.Secp256k1Point"%string) ((if o then 3%N else 2%N) :: be_bytes 32 (Z.to_N x))
+  | FElg lx lo mx mo => mkItem elg_domain (pt_bytes lx lo ++ pt_bytes mx mo)
+  end.
+
+Lemma enc_fld f : enc_hval (fld_hval f) = Some (fld_item f).
+Proof. destruct f; reflexivity. Qed.
+
+Lemma enc_all_flds l : enc_all (map fld_hval l) = Some (map fld_item l).
+Proof. induction l as [|f l IH]; [reflexivity|]. cbn [map enc_all]. rewrite enc_fld, IH. reflexivity. Qed.
+
+Lemma write_any_flds st l : write_any st (map fld_hval l) = (stream st (map fld_item l), true).
+Proof. apply write_any_ok. apply enc_all_flds. Qed.
+
+(* ---- byte lengths ---- *)
+Lemma byte_len_bound n k : (n < 2 ^ (8 * N.of_nat k))%N -> (byte_len n <= k)%nat.
+Proof.
+  intro H. unfold byte_len.
+  assert (Hs : (N.size n <= 8 * N.of_nat k)%N).
+  { destruct n as [|p]; [cbn; lia|]. rewrite N.size_log2 by discriminate.
+    apply N.le_succ_l. apply N.log2_lt_pow2; [lia | exact H]. }
+  assert (((N.size n + 7) / 8 < N.of_nat k + 1)%N).
+  { apply N.div_lt_upper_bound; [lia|]. lia. }
+  lia.
+Qed.
+
+Lemma lt_pow_byte_len n : (n < 256 ^ N.of_nat (byte_len n))%N.
+Proof.
+  unfold byte_len. rewrite N2Nat.id.
+  pose proof (N.size_gt n) as Hs.
+  change 256%N with (2 ^ 8)%N. rewrite <- N.pow_mul_r.
+  eapply N.lt_le_trans; [exact Hs|]. apply N.pow_le_mono_r; [lia|].
+  pose proof (N.div_mod (N.size n + 7) 8 ltac:(lia)) as Hd.
+  pose proof (N.mod_lt (N.size n + 7) 8 ltac:(lia)). lia.
+Qed.
+
+Lemma be_val_be_min n : be_val (be_min n) = n.
+Proof. unfold be_min. rewrite be_val_be_bytes. apply N.mod_small. apply lt_pow_byte_len. Qed.
+
+Lemma be_min_inj a b : be_min a = be_min b -> a = b.
+Proof. intro H. apply (f_equal be_val) in H. rewrite !be_val_be_min in H. exact H. Qed.
+
+Lemma be_min_length n : length (be_min n) = byte_len n.
+Proof. unfold be_min. apply be_bytes_length. Qed.
+
+Lemma be_min_wf n : wf_bytes (be_min n) = true.
+Proof. unfold be_min. apply be_bytes_wf. Qed.
+
+Lemma gob_inj a b : gob_bigint a = gob_bigint b -> a = b.
+Proof.
+  unfold gob_bigint. intro H. injection H as Hs Hm. apply be_min_inj in Hm.
+  destruct (Z.ltb_spec a 0), (Z.ltb_spec b 0); try discriminate; lia.
+Qed.
+
+Lemma to_N_inj a b : 0 <= a -> 0 <= b -> Z.to_N a = Z.to_N b -> a = b.
+Proof. intros Ha Hb H. apply (f_equal Z.of_N) in H. rewrite !Z2N.id in H by assumption. exact H. Qed.
+
+Lemma to_N_lt a k : 0 <= a -> a < 2 ^ (8 * Z.of_nat k) -> (Z.to_N a < 256 ^ N.of_nat k)%N.
+Proof.
+  intros Ha Hlt. change 256%N with (2 ^ 8)%N. rewrite <- N.pow_mul_r.
+  apply N2Z.inj_lt. rewrite Z2N.id by assumption. rewrite N2Z.inj_pow, N2Z.inj_mul, nat_N_Z. exact Hlt.
+Qed.
+
+Lemma be_bytes_Z_inj k a b : 0 <= a < 2 ^ (8 * Z.of_nat k) -> 0 <= b < 2 ^ (8 * Z.of_nat k) ->
+  be_bytes k (Z.to_N a) = be_bytes k (Z.to_N b) -> a = b.
+Proof.
+  intros Ha Hb H. apply to_N_inj; try lia. apply (be_bytes_inj k); try (apply to_N_lt; lia). exact H.
+Qed.
+
+Lemma pt_bytes_length x o : length (pt_bytes x o) = 33%nat.
+Proof. unfold pt_bytes. cbn [length]. rewrite be_bytes_length. reflexivity. Qed.
+
+Lemma pt_bytes_inj x o x' o' : 0 <= x < 2 ^ 256 -> 0 <= x' < 2 ^ 256 -> pt_bytes x o = pt_bytes x' o' -> x = x' /\ o = o'.
+Proof.
+  intros Hx Hx' H. unfold pt_bytes in H. injection H as Ho Hb.
+  apply (be_bytes_Z_inj 32) in Hb; [| exact Hx | exact Hx'].
+  split; [exact Hb|]. destruct o, o'; try reflexivity; discriminate.
+Qed.
+
+(* ---- injectivity of the item encoding on well-formed fields ---- *)
+Ltac wf_split H :=
+  repeat match type of H with
+         | (_ && _)%bool = true => let H1 := fresh H in apply andb_true_iff in H as [H H1]
+         end.
+
+Lemma fld_item_inj f g : fld_wf f = true -> fld_wf g = true -> fld_item f = fld_item g -> f = g.
+Proof.
+  intros Wf Wg E.
+  destruct f, g; cbn [fld_item] in E; injection E as Ed Eb;
+    try (vm_compute in Ed; discriminate Ed); clear Ed; cbn [fld_wf] in Wf, Wg.
+  - (* FPed *)
+    apply andb_true_iff in Wf as [Wf Wf6]. apply andb_true_iff in Wf as [Wf Wf5]. apply andb_true_iff in Wf as [Wf Wf4].
+    apply andb_true_iff in Wf as [Wf Wf3]. apply andb_true_iff in Wf as [Wf1 Wf2].
+    apply andb_true_iff in Wg as [Wg Wg6]. apply andb_true_iff in Wg as [Wg Wg5]. apply andb_true_iff in Wg as [Wg Wg4].
+    apply andb_true_iff in Wg as [Wg Wg3]. apply andb_true_iff in Wg as [Wg1 Wg2].
+    apply Z.leb_le in Wf1, Wf3, Wf5, Wg1, Wg3, Wg5. apply Z.ltb_lt in Wf2, Wf4, Wf6, Wg2, Wg4, Wg6.
+    apply app_eq_length in Eb as [E1 Eb]; [|rewrite !be_bytes_length; reflexivity].
+    apply app_eq_length in Eb as [E2 E3]; [|rewrite !be_bytes_length; reflexivity].
+    apply (be_bytes_Z_inj 256) in E1, E2, E3; try (change (8 * Z.of_nat 256) with 2048; lia). subst. reflexivity.
+  - (* FPk *)
+    apply andb_true_iff in Wf as [Wf1 _]. apply andb_true_iff in Wg as [Wg1 _]. apply Z.leb_le in Wf1, Wg1.
+    apply be_min_inj in Eb. apply to_N_inj in Eb; try assumption. subst. reflexivity.
+  - (* FCt *)
+    apply andb_true_iff in Wf as [Wf1 Wf2]. apply andb_true_iff in Wg as [Wg1 Wg2].
+    apply Z.leb_le in Wf1, Wg1. apply Z.ltb_lt in Wf2, Wg2.
+    apply (be_bytes_Z_inj 512) in Eb; try (change (8 * Z.of_nat 512) with 4096; lia). subst. reflexivity.
+  - (* FNat *)
+    apply andb_true_iff in Wf as [Wf _]. apply andb_true_iff in Wf as [Wf1 Wf2].
+    apply andb_true_iff in Wg as [Wg _]. apply andb_true_iff in Wg as [Wg1 Wg2].
+    apply Z.leb_le in Wf1, Wg1. apply Z.ltb_lt in Wf2, Wg2.
+    assert (k = k0) by (apply (f_equal (@length _)) in Eb; rewrite !be_bytes_length in Eb; exact Eb). subst k0.
+    apply (be_bytes_Z_inj k) in Eb; try lia. subst. reflexivity.
+  - (* FMod *)
+    apply andb_true_iff in Wf as [Wf1 _]. apply andb_true_iff in Wg as [Wg1 _]. apply Z.leb_le in Wf1, Wg1.
+    apply be_min_inj in Eb. apply to_N_inj in Eb; try assumption. subst. reflexivity.
+  - (* FBig *)
+    apply gob_inj in Eb. subst. reflexivity.
+  - (* FSc *)
+    apply andb_true_iff in Wf as [Wf1 Wf2]. apply andb_true_iff in Wg as [Wg1 Wg2].
+    apply Z.leb_le in Wf1, Wg1. apply Z.ltb_lt in Wf2, Wg2.
+    apply (be_bytes_Z_inj 32) in Eb; try (change (8 * Z.of_nat 32) with 256; lia). subst. reflexivity.
+  - (* FPt *)
+    apply andb_true_iff in Wf as [Wf1 Wf2]. apply andb_true_iff in Wg as [Wg1 Wg2].
+    apply Z.leb_le in Wf1, Wg1. apply Z.ltb_lt in Wf2, Wg2.
+    destruct (pt_bytes_inj x odd x0 odd0 ltac:(lia) ltac:(lia)) as [-> ->]; [|reflexivity].
+    unfold pt_bytes. f_equal; [destruct odd, odd0; congruence | congruence].
+  - (* FElg *)
+    apply andb_true_iff in Wf as [Wf Wf4]. apply andb_true_iff in Wf as [Wf Wf3]. apply andb_true_iff in Wf as [Wf1 Wf2].
+    apply andb_true_iff in Wg as [Wg Wg4]. apply andb_true_iff in Wg as [Wg Wg3]. apply andb_true_iff in Wg as [Wg1 Wg2].
+    apply Z.leb_le in Wf1, Wf3, Wg1, Wg3. apply Z.ltb_lt in Wf2, Wf4, Wg2, Wg4.
+    apply app_eq_length in Eb as [E1 E2]; [|rewrite !pt_bytes_length; reflexivity].
+    apply pt_bytes_inj in E1 as [-> ->]; try lia. apply pt_bytes_inj in E2 as [-> ->]; try lia. reflexivity.
+Qed.
